@@ -52,19 +52,28 @@ _BIN = {ast.Add: operator.add, ast.Sub: operator.sub, ast.Mult: operator.mul, as
 _CMP = {ast.Eq: operator.eq, ast.NotEq: operator.ne, ast.Lt: operator.lt, ast.LtE: operator.le,
         ast.Gt: operator.gt, ast.GtE: operator.ge, ast.Is: operator.is_, ast.IsNot: operator.is_not,
         ast.In: lambda a, b: a in b, ast.NotIn: lambda a, b: a not in b}
+class GenList(list):
+    """the items of an evaluated generator, with the one-shot behaviour of a generator: iterating (or next) consumes them, so a second
+    traversal finds nothing - exactly what the evaluated code would see"""
+
+    def __iter__(self):
+        while len(self):
+            yield self.pop(0)
+
+
 def _next(it, *default):
     """next() on the eager lists this evaluator uses for generators: the first item (the list is not consumed - callers that call
     next twice on one iterator are not modelled)"""
-    if not isinstance(it, (list, tuple)):
+    if not isinstance(it, GenList):
         raise NotFinite("next of something that is not an evaluated generator")
-    if it:
-        return it[0]
+    if len(it):
+        return it.pop(0)
     if default:
         return default[0]
     raise StopIteration()
 
 
-_SAFE_FUNCS = {"next": _next, "iter": lambda x: list(x), "int": int, "abs": abs, "min": min, "max": max, "len": len, "range": range, "divmod": divmod,
+_SAFE_FUNCS = {"next": _next, "iter": lambda x: GenList(x), "int": int, "abs": abs, "min": min, "max": max, "len": len, "range": range, "divmod": divmod,
                "tuple": tuple, "list": list, "sum": sum, "bool": bool, "str": str, "enumerate": lambda *a: list(enumerate(*a)),
                "set": set, "frozenset": frozenset, "sorted": sorted, "zip": lambda *a: list(zip(*a)), "reversed": lambda a: list(reversed(a)),
                "any": any, "all": all, "dict": dict}
@@ -204,7 +213,7 @@ def ev(node, env: dict, funcs: dict | None = None, methods: dict | None = None):
                 return dict(out)
             if isinstance(n, ast.SetComp):
                 return set(out)
-            return out
+            return GenList(out) if isinstance(n, ast.GeneratorExp) else out
         if isinstance(n, ast.Subscript):
             base = e(n.value, env)
             if isinstance(n.slice, ast.Slice):
@@ -478,10 +487,10 @@ def run_function(f, args: dict, funcs=None, env=None, final_env=None, methods=No
     except _Ret as r:
         if final_env is not None:
             final_env.update(env)
-        return env["\0yield"] if is_gen else r.v
+        return GenList(env["\0yield"]) if is_gen else r.v
     if final_env is not None:
         final_env.update(env)
-    return env["\0yield"] if is_gen else None
+    return GenList(env["\0yield"]) if is_gen else None
 
 
 # ---------------------------------------------------------------------------------------------------------------------------------
